@@ -164,6 +164,7 @@ pub fn seeded_current_name(naming: NamingK) -> String {
         NamingK::CustomCur => format!("app_{}.log", lg::CUSTOM_CUR),
         NamingK::NumbersDirect => "app_r00000.log".into(),
         NamingK::TimestampsDirect | NamingK::CustomDirect => "app_r2024-05-15_12-00-00.log".into(),
+        NamingK::CoarseDirect => "app_d2024-05-15.log".into(),
     }
 }
 
